@@ -10,7 +10,9 @@ mod wellformed;
 fn main() {
     let args: Vec<String> = std::env::args().skip(1).collect();
     let id = args.first().cloned().unwrap_or_default();
-    vcore::quiet_panics();
+    if id != "probe" {
+        vcore::quiet_panics();
+    }
     if id == "probe" {
         // development aid: vc-synth probe <reproducer.json> — both traces side by side
         let text = std::fs::read_to_string(&args[1]).expect("read");
